@@ -56,18 +56,36 @@ func schedHarness(desc []string) (sched.Harness, error) {
 			}
 		}}, nil
 	case "S2": // cross-call on cold package state: S2 op op [op]
-		ops := pureOps()
+		ops := append([]pureOp(nil), pureOps()...)
+		fresh0, err := freshObservations()
+		if err != nil {
+			return sched.Harness{}, err
+		}
+		fresh := map[string]string{}
+		for k, v := range fresh0 {
+			fresh[k] = v
+		}
 		var idx []int
 		for _, n := range desc[1:] {
+			if strings.HasPrefix(n, "call:") { // an arbitrary encoder call given by its descriptor
+				cl, err := parseCall(n[5:])
+				if err != nil {
+					return sched.Harness{}, err
+				}
+				fo, err := freshCall(cl)
+				if err != nil {
+					return sched.Harness{}, err
+				}
+				fresh[n] = fo
+				ops = append(ops, pureOp{n, cl.run})
+				idx = append(idx, len(ops)-1)
+				continue
+			}
 			i, ok := pureOpIdx[n]
 			if !ok {
 				return sched.Harness{}, fmt.Errorf("unknown op %q", n)
 			}
 			idx = append(idx, i)
-		}
-		fresh, err := freshObservations()
-		if err != nil {
-			return sched.Harness{}, err
 		}
 		return sched.Harness{Name: name, Policy: sched.GroupLevel, Setup: func() ([]func(), func(*sched.Exec) (string, string)) {
 			resetCaches()
@@ -186,6 +204,9 @@ func s3dName(lvl, mode int, content string) string {
 // (terminator shorter than four bits): the byte stream and the block reader must still agree
 var s3dCases = [][2]string{{"1", "0123"}, {"2", "AB1"}, {"3", "hé"}, {"0", "7"}, {"1", "12a"}, {"2", "ab"},
 	{"1", "01234567890123456789012345678901234567890"}, {"2", "ABCDEFGHIJKLMNOPQRSTUVWXY"},
+	// short contents whose two best masks have the same penalty on the pinned tree: whatever
+	// order concurrent scorers report in, the call must return what it returns alone
+	{"0", "31"}, {"0", "188"},
 	// refused for size (every early return must leave no goroutine behind)
 	{"2", strings.Repeat("A", 4297)}, {"1", strings.Repeat("7", 7090)}, {"0", strings.Repeat("Z", 4297)}, {"3", strings.Repeat("z", 2954)}}
 
@@ -277,23 +298,28 @@ func exploreUnit(c *core.Ctx, desc []string, bound int, spread bool) {
 		fmt.Fprintf(os.Stderr, "CHECK-BROKEN: harness %v: %v\n", desc, err)
 		os.Exit(2)
 	}
+	// per-unit budget: a unit that does not finish within it is reported as incomplete (never an alarm)
+	unitDeadline := time.Now().Add(time.Duration(pick(c, 60, 1500)) * time.Second)
+	if !c.Deadline.IsZero() && c.Deadline.Before(unitDeadline) {
+		unitDeadline = c.Deadline
+	}
 	var st sched.Stats
 	lo := 0
 	if bound < 0 {
 		// unbounded: first the schedules with <= 1 preemption (shortest counterexamples), then everything
 		for b := 0; b <= 1; b++ {
-			st = sched.Explore(h, b, shard, n, c.Deadline)
+			st = sched.Explore(h, b, shard, n, unitDeadline)
 			if st.Violation != nil || st.HardError != "" || !st.Complete || !st.Cut {
 				break
 			}
 		}
 		if st.Violation == nil && st.HardError == "" && st.Complete && st.Cut {
-			st = sched.Explore(h, -1, shard, n, c.Deadline)
+			st = sched.Explore(h, -1, shard, n, unitDeadline)
 		}
 		lo = 1 << 30
 	}
 	for b := lo; b <= bound; b++ { // iterative context bounding: the first counterexample has the fewest preemptions
-		st = sched.Explore(h, b, shard, n, c.Deadline)
+		st = sched.Explore(h, b, shard, n, unitDeadline)
 		if os.Getenv("VERIF_DEBUG") != "" {
 			fmt.Fprintf(os.Stderr, "  %v bound %d: %d schedules %d points max %d states %d pruned %d cut=%v complete=%v %.1fs\n", desc, b, st.Schedules, st.Points, st.MaxPoints, st.States, st.Pruned, st.Cut, st.Complete, time.Since(t0).Seconds())
 		}
@@ -318,7 +344,7 @@ func exploreUnit(c *core.Ctx, desc []string, bound int, spread bool) {
 		c.R.State(desc[0] + " end: " + e)
 	}
 	if !st.Complete {
-		c.R.NotDone("harness %v: deadline reached inside preemption bound %d after %d schedules", desc, st.Bound, st.Schedules)
+		c.R.NotDone("harness %v: unit budget/deadline reached inside preemption bound %d after %d schedules", desc, st.Bound, st.Schedules)
 	}
 	if strings.HasPrefix(desc[0], "S3") && len(st.SharedSeqs) > 1 {
 		c.R.NotDone("harness %v: the sequence of shared-object operations differs between intra-call schedules (%d variants): the group-level reduction of S2 is not justified for this call", desc, len(st.SharedSeqs))
@@ -428,6 +454,32 @@ func c16Body(c *core.Ctx) {
 				}
 			}
 		}
+	}
+	// S2b: two different calls of the same family, for every family: on the pinned tree these
+	// calls share nothing and have no scheduling points (one schedule each); if a change makes them
+	// share package-level state, the instrumenter puts a scheduling point before every statement
+	// of the functions that touch it and the interleavings are explored
+	cl := func(fam, content string, p ...int) string { return "call:" + call{fam, []byte(content), p}.String() }
+	sib := [][2]string{
+		{cl("pdf", "\x80\x81\x82\x83\x84\x85\x86abc", 0), cl("pdf", "\x90\x91\x92\x93\x94\x95\x96\x97\x98\x99\x9a\x9b", 0)},
+		{cl("pdf", "Hello, World; 1234567890123456", 2), cl("pdf", "", 8)},
+		{cl("pdf", "A", 8), cl("pdf", "", 8)},
+		{cl("az", "Hello, World.", 33, 0), cl("az", "\x00\x01\x80 binary 12345 \r\n", 23, 0)},
+		{cl("dm", "A1"), cl("dm", "0123456789abcdefghij\x80")},
+		{cl("c128", "Ab12345\x01", 1), cl("c128", "98765 zyx", 0)},
+		{cl("c39", "CODE-39 $%", 1, 0), cl("c39", "a~b", 1, 1)},
+		{cl("c39", "Caf\u00e9", 1, 1), cl("c39", "a~b", 1, 1)},
+		{cl("c93", "TEST93+/", 1, 0), cl("c93", "a~\x00", 1, 1)},
+		{cl("ean", "1234567"), cl("ean", "590123412345")},
+		{cl("ean", "12345a7"), cl("ean", "1234567")},
+		{cl("codabar", "A12-$:/.+3B"), cl("codabar", "C999D")},
+		{cl("tof", "12345", 0), cl("tof", "98", 0)},
+		{cl("tof", "123456", 1), cl("tof", "9876", 1)},
+		{cl("qr", "12a45", 1, 1), cl("qr", "12345", 1, 1)},
+		{cl("qr", "AB1", 0, 2), cl("qr", "HELLO WORLD", 0, 0)},
+	}
+	for _, pr := range sib {
+		exploreUnit(c, []string{"S2", pr[0], pr[1]}, b2, false)
 	}
 	// S3: intra-call pipelines
 	for _, d := range []string{"9", "13"} {
